@@ -32,3 +32,15 @@ Proof. vm_compute. reflexivity. Qed.
 Lemma writer_ok_rejects_writefile :
   writer_ok (mkw "internal/dhcpd/db.go" "writeDB" "os.WriteFile" KWriteFile 189%N) = false.
 Proof. vm_compute. reflexivity. Qed.
+
+(** Round 8 (P): updater.copySupportingFiles copies package entries over files
+    of the working directory IN PLACE (copyFile = os.WriteFile, the raw row
+    excused above).  The working directory holds the live configuration file:
+    the copy must never have it as its destination.  Pinned on the source: the
+    skip condition of the loop is nothing but a disjunction of comparisons of
+    the base name with string literals, and "AdGuardHome.yaml" is one of them
+    (the lease database and the list files live below data/, out of reach of a
+    base name joined to the working directory). *)
+Lemma copy_skips_protect_config :
+  copy_skip_pure = true /\ existsb (String.eqb "AdGuardHome.yaml") copy_skip_names = true.
+Proof. vm_compute. split; reflexivity. Qed.
